@@ -497,8 +497,11 @@ func TestCheck(t *testing.T) {
 						return
 					}
 					defer e.close()
-					for _, m := range methods {
-						for _, tg := range targets {
+					// the authority the client addresses: other port, the default ports written out, none, an IPv6 literal -
+					// with PreserveHost the backend is given exactly what the client sent
+					hosts := []string{"client-host.example:8443", "client-host.example:443", "client-host.example", "[2001:db8::1]:443", "client-host.example:80"}
+					for mi, m := range methods {
+						for ti, tg := range targets {
 							rs := reqShape{method: m, target: tg, hs: hss[1], framing: "cl"}
 							if proto == "h2" {
 								rs.framing = "d16384"
@@ -506,8 +509,8 @@ func TestCheck(t *testing.T) {
 							if m != "GET" && m != "HEAD" {
 								rs.body = pat(33, 3)
 							}
-							host := "client-host.example:8443"
-							desc := fmt.Sprintf("R1 %s preserve=%v %s %s", proto, preserve, m, tg)
+							host := hosts[(mi+ti)%len(hosts)]
+							desc := fmt.Sprintf("R1 %s preserve=%v %s %s host=%s", proto, preserve, m, tg, host)
 							rec, g := e.exchange(rep, proto, rs, host, nil)
 							if rec == nil {
 								return
